@@ -2,6 +2,7 @@ package checks
 
 import (
 	"bytes"
+	"testing/fstest"
 	"context"
 	"encoding/json"
 	"errors"
@@ -28,6 +29,7 @@ type c05Case struct {
 	NilIO bool   `json:"nil_io,omitempty"`
 	Tag   string `json:"tag,omitempty"` // signature label for the arithmetic and stream matrices
 	Setup string `json:"setup,omitempty"`
+	Files bool `json:"files,omitempty"` // run against the in-memory file system of family (g)
 	// SetupQuery: a query run first on the same interpreter (stream histories)
 	SetupQuery string `json:"setup_query,omitempty"`
 }
@@ -277,6 +279,7 @@ func c05Work(w *h.W) {
 		c05Streams(w, run)
 		c05DB(w, emit)
 		c05StreamHistories(w, emit)
+		c05Files(w, emit)
 	}
 	for _, pr := range c05Procedures() {
 		if pr.Name == "halt" {
@@ -558,6 +561,87 @@ func c05RunStreamHistory(c *c05Case) (kind, detail string) {
 	return c05RunGoal(p, c)
 }
 
+// (g) texts and goals that load other texts from a file system holding self-including, mutually including and
+// mutually loading files, a long chain of inclusions, a missing file, a file with a syntax error
+func c05FileSystem() fstest.MapFS {
+	m := fstest.MapFS{
+		"self.pl":  {Data: []byte(":- include(self).\n")},
+		"self2.pl": {Data: []byte("s2(1).\n:- include('self2.pl').\ns2(2).\n")},
+		"a.pl":     {Data: []byte("a(1).\n:- include(b).\n")},
+		"b.pl":     {Data: []byte("b(1).\n:- include(a).\n")},
+		"c.pl":     {Data: []byte("c(1).\n:- ensure_loaded(d).\n")},
+		"d.pl":     {Data: []byte("d(1).\n:- ensure_loaded(c).\n")},
+		"e.pl":     {Data: []byte("e(1).\n:- consult(e).\n")},
+		"bad.pl":   {Data: []byte("ok(1).\nfoo(.\n")},
+		"init.pl":  {Data: []byte(":- initialization(consult(init)).\n")},
+		"twice.pl": {Data: []byte(":- include(leaf).\n:- include(leaf).\n")},
+		"leaf.pl":  {Data: []byte(":- dynamic(leaf/1).\n")},
+	}
+	for i := 0; i < 300; i++ {
+		m[fmt.Sprintf("chain%d.pl", i)] = &fstest.MapFile{Data: []byte(fmt.Sprintf("ch(%d).\n:- include(chain%d).\n", i, i+1))}
+	}
+	m["chain300.pl"] = &fstest.MapFile{Data: []byte("ch(300).\n")}
+	return m
+}
+
+var c05FileNames = []string{"self", "'self.pl'", "self2", "a", "b", "c", "d", "e", "bad", "init", "twice", "leaf", "chain0", "chain290", "missing", "_", "1", "[a, c]", "f(x)", "''"}
+
+func c05Files(w *h.W, emit func(c *c05Case, kind, detail string, size int)) {
+	fsys := c05FileSystem()
+	for _, n := range c05FileNames {
+		for _, form := range []string{":- include(%s).", ":- ensure_loaded(%s).", ":- consult(%s).", ":- initialization(consult(%s)).", "t(1). :- include(%s). t(2).", "G:consult(%s)", "G:catch(consult(%s), _, true), consult(%s)", "G:[%s]"} {
+			if !w.Mine() {
+				continue
+			}
+			txt := strings.ReplaceAll(form, "%s", n)
+			c := &c05Case{Kind: "text", Text: txt, Via: "Exec", Tag: "file system"}
+			if strings.HasPrefix(txt, "G:") {
+				c = &c05Case{Kind: "goal", Goal: strings.TrimPrefix(txt, "G:") + " .", Tag: "file system"}
+			}
+			c.Files = true
+			w.WAL(c)
+			w.GuardFor(c, 30*time.Second)
+			kind, detail := c05RunFiles(c, fsys)
+			w.Unguard()
+			w.Nontrivial("fs:" + txt)
+			emit(c, kind, detail, len(txt))
+		}
+	}
+}
+
+func c05RunFiles(c *c05Case, fsys fstest.MapFS) (kind, detail string) {
+	defer func() {
+		if r := recover(); r != nil {
+			kind, detail = "an unrecovered Go panic escaped", fmt.Sprint(r)
+		}
+	}()
+	p := c05NewInterp(false)
+	p.FS = fsys
+	ctx, cancel := context.WithTimeout(context.Background(), 10*time.Second)
+	defer cancel()
+	var err error
+	if c.Kind == "goal" {
+		// a goal that loads a text reports that text's faults the way Exec does (a Go error for a text that does
+		// not parse is the API's syntax error report), so it is judged like a text
+		sols, qerr := p.QueryContext(ctx, c.Goal)
+		if qerr != nil {
+			return "the generated goal does not parse", qerr.Error()
+		}
+		sols.Next()
+		err = sols.Err()
+		sols.Close()
+	} else {
+		err = p.ExecContext(ctx, c.Text)
+	}
+	if errors.Is(err, context.DeadlineExceeded) {
+		return "the call does not return (still running when the 10 s horizon passed)", err.Error()
+	}
+	if k := c05Judge(err, false); k != "" {
+		return k, err.Error()
+	}
+	return "", ""
+}
+
 // c05RunGoalAll is c05RunGoal but takes up to 20 answers, so that every open alternative is resumed.
 func c05RunGoalAll(p *prolog.Interpreter, c *c05Case) (kind string, detail string) {
 	defer func() {
@@ -614,7 +698,9 @@ func c05Replay(b []byte) (string, string, bool) {
 		return "", err.Error(), false
 	}
 	var kind, detail string
-	if c.Kind == "text" {
+	if c.Files {
+		kind, detail = c05RunFiles(&c, c05FileSystem())
+	} else if c.Kind == "text" {
 		kind, detail = c05RunText(&c)
 	} else if c.SetupQuery != "" {
 		kind, detail = c05RunStreamHistory(&c)
@@ -638,7 +724,7 @@ func c05Replay(b []byte) (string, string, bool) {
 func init() {
 	h.Register(&h.Check{
 		ID: "C05",
-		Rule: "(a) ALL strings of <= L symbols over a 29-symbol token alphabet taken from the lexer's switch (atoms, variables, digits, '.', ',', '|', every bracket, '-', '+', '\\\\', quote characters, 0', 0x, :-, layout, %, /*, a non-ASCII letter, a float prefix) each as is, with '.', and with ' .\\n', handed to Exec and to Query; all byte strings of length 1 and (quick: every 7th; thorough: all) of length 2; (b) EVERY registered procedure (read from the interpreter through a verif-tagged accessor, so the matrix follows the code) except halt/0,1 x all tuples of 14 (thorough: 22) argument shapes for arity <= 3 and of 8 (arity 4, 5) / 6 shapes above (unbound, atoms incl. empty, [], integers incl. extremes, float, compound, proper/partial/improper list, string, a stream, callable and non-callable terms), first answer plus one retry then Close, on an interpreter with real streams and (quick: every 5th tuple) on the documented prolog.New(nil, nil); (c) EVERY evaluable functor of eval's dispatch tables (read through a verif-tagged accessor) x a 25-value operand grid (unbound, atom, integers incl. 63/64/-64/extremes, floats incl. -0.0, largest and smallest, compound, string, lists, nested error) for both operands, unary ones also over every unary functor nested inside (thorough: every binary too), each under is/2, three comparisons and catch/3; (d) every procedure of arity 1..4 x 7 kinds of stream argument (closed input/output, open text/binary input/output, at end, closed alias) in every argument position x all tuples of 10 other shapes (quick, arity 4: 5); (e) database histories: all conjunctions of <= 3 (thorough: 4) goals from a 20-goal menu that calls, retracts, asserts, abolishes and enumerates a dynamic predicate with three clauses while calls of it are open, with and without a final fail, up to 20 answers; (f) stream-state histories: all sequences of <= 3 (4) of 14 operations that open, close, alias and make current input/output streams (the standard streams included), each followed by each of 17 probes that use a stream. Distinct = text or goal.",
+		Rule: "(a) ALL strings of <= L symbols over a 29-symbol token alphabet taken from the lexer's switch (atoms, variables, digits, '.', ',', '|', every bracket, '-', '+', '\\\\', quote characters, 0', 0x, :-, layout, %, /*, a non-ASCII letter, a float prefix) each as is, with '.', and with ' .\\n', handed to Exec and to Query; all byte strings of length 1 and (quick: every 7th; thorough: all) of length 2; (b) EVERY registered procedure (read from the interpreter through a verif-tagged accessor, so the matrix follows the code) except halt/0,1 x all tuples of 14 (thorough: 22) argument shapes for arity <= 3 and of 8 (arity 4, 5) / 6 shapes above (unbound, atoms incl. empty, [], integers incl. extremes, float, compound, proper/partial/improper list, string, a stream, callable and non-callable terms), first answer plus one retry then Close, on an interpreter with real streams and (quick: every 5th tuple) on the documented prolog.New(nil, nil); (c) EVERY evaluable functor of eval's dispatch tables (read through a verif-tagged accessor) x a 25-value operand grid (unbound, atom, integers incl. 63/64/-64/extremes, floats incl. -0.0, largest and smallest, compound, string, lists, nested error) for both operands, unary ones also over every unary functor nested inside (thorough: every binary too), each under is/2, three comparisons and catch/3; (d) every procedure of arity 1..4 x 7 kinds of stream argument (closed input/output, open text/binary input/output, at end, closed alias) in every argument position x all tuples of 10 other shapes (quick, arity 4: 5); (e) database histories: all conjunctions of <= 3 (thorough: 4) goals from a 20-goal menu that calls, retracts, asserts, abolishes and enumerates a dynamic predicate with three clauses while calls of it are open, with and without a final fail, up to 20 answers; (f) stream-state histories: all sequences of <= 3 (4) of 14 operations that open, close, alias and make current input/output streams (the standard streams included), each followed by each of 17 probes that use a stream; (g) 20 file names x 8 forms of include/ensure_loaded/consult (directive, initialization goal, between clauses, goal, retried goal, list notation) over an in-memory file system with self-including, mutually including and mutually loading files, a chain of 300 inclusions, a missing file, a file with a syntax error. Distinct = text or goal.",
 		Explanation: "state = a fresh (or regularly renewed) real interpreter in an isolated worker process; transition = one Exec/Query call; oracle: the worker process survives (a fatal runtime error is attributed to the exact input through a write-ahead record, re-running the batch in fine mode), the call returns (per-case watchdog), an error raised by a predicate is error(Formal, _) with an ISO formal error term, and no returned error is the residue of a recovered Go panic",
 		Assumptions: []string{"workers run in an empty scratch directory with GOMAXPROCS=1 and a 256 MB goroutine stack limit so that unbounded recursion dies quickly", "a Go error returned for a text that does not parse is the API's way to report a syntax error and is accepted"},
 		Work:          c05Work,
